@@ -452,6 +452,7 @@ class ServerUnderTest:
         self.node_name = node
         is_async = cfg['async']
         self.loop: Optional[SimLoop] = ensure_loop(w) if is_async else None
+        self.generation = 1
         self.service = Service(w, cfg['flavour'], node=node)
         plain = list(cfg.get('mw_plain') or []) + [False] * len(cfg['middlewares'])
         mws = [make_middleware(w, node, i, k, is_async, plain[i]) for i, k in enumerate(cfg['middlewares'])]
@@ -486,6 +487,14 @@ class ServerUnderTest:
         self.context = context
         self.server = ServerNode(w, self.dispatcher, self.loop, node=node,
                                  context_factory=(lambda: context) if context is not None else None)
+
+    def redeploy(self) -> None:
+        """Register a new generation of every function under the same names on the live dispatcher (a hot reload): from
+        now on the methods that exist are the new ones."""
+        self.generation += 1
+        self.service = Service(self.w, self.cfg['flavour'], node=self.node_name, generation=self.generation)
+        self.dispatcher.add_methods(self.service.registry())
+        self.w.probe('server.redeployed')
 
     def new_event_loop(self) -> None:
         """From now on this (asynchronous) dispatcher is driven by a new event loop."""
@@ -654,6 +663,10 @@ def judge_delivery(w: World, prop: str, sut: 'ServerUnderTest', text: str, check
     before = len(w.history)
     outcome = sut.deliver(text)
     recs = [r for r in w.history[before:] if r['node'] == sut.node_name]
+    stale = [r for r in recs if r['kind'] == 'method.enter' and r.get('gen', sut.generation) != sut.generation]
+    if stale:
+        w.violate(f'{prop}.stale_method', f'method {stale[0]["method"]} was registered again, but the function of '
+                  f'generation {stale[0]["gen"]} was executed (current generation {sut.generation})', **ctx)
     doc = None
     if 'wellformed' in checks or outcome[0] == 'raise':
         doc = check_wellformed(w, prop, text, outcome, ctx)
